@@ -98,6 +98,7 @@ func ruleOnce(c *Ctx) {
 	}
 	var report []string
 	okAny := false
+	markerSeen := map[string]bool{}
 	for _, cd := range cands {
 		name := p.FieldName(cd.fv)
 		// (a) launch sites only via the unset edge
@@ -113,6 +114,41 @@ func ruleOnce(c *Ctx) {
 		for ln := range launch {
 			if _, hit := seen[ln]; hit {
 				b = false
+			}
+		}
+		if b {
+			// Any field whose set value short-circuits Start ("already started")
+			// is a started-marker: resetting it anywhere re-opens Start (for a
+			// reattach client, whose path does not pass the launch flag, it
+			// re-attaches a killed client).
+			resetAt := ""
+			for _, ff := range p.Funcs {
+				finfo := ff.Pkg.TypesInfo
+				walkNoLit(ff.Body, func(x ast.Node) bool {
+					as, ok := x.(*ast.AssignStmt)
+					if !ok {
+						return true
+					}
+					for i, l := range as.Lhs {
+						if SelField(finfo, l) == cd.fv && i < len(as.Rhs) {
+							if isNilIdent(finfo, as.Rhs[i]) {
+								resetAt = p.Pos(as)
+							}
+							if id, ok := as.Rhs[i].(*ast.Ident); ok && id.Name == "false" {
+								resetAt = p.Pos(as)
+							}
+						}
+					}
+					return true
+				})
+			}
+			if !markerSeen[name] {
+				markerSeen[name] = true
+				if resetAt != "" {
+					c.R.Violate("R-ONCE", resetAt, f.Name, "started-marker "+name+" is never reset", "the field whose set value makes Start return without launching or attaching is cleared again: after that (e.g. after Kill) Start, Client or Protocol start or re-attach the plugin a second time", nil)
+				} else {
+					c.R.Hold("R-ONCE", p.Pos(cd.setEdge.From.Ast), f.Name, "started-marker "+name+" is never reset", "no store of nil/false to the field anywhere in the module", true)
+				}
 			}
 		}
 		if !a || !b {
